@@ -1,4 +1,5 @@
-import SiaProofs.Lemmas.CodecBitmap
+import SiaProofs.Lemmas.CodecEnv
+import SiaProofs.Props.C11Tie
 import SiaModel.Codec.Spec
 import SiaModel.Codec.Irregular
 /-!
@@ -18,22 +19,31 @@ theorem tie_resolution_tags :
     resolutionTagsEnc = Irregular.resolutionTags ∧ resolutionTagsDec = Irregular.resolutionTags := by
   constructor <;> rfl
 
-theorem resolutionPayload_ok : CodecOK (Irregular.resolutionPayload Env.default) := by
-  apply tagged_ok
-  intro t c h
-  simp only [findTag] at h
-  split at h
-  · injection h with h; subst h; exact ofSch_ok Env.default_ok _ (by decide +kernel)
-  · split at h
-    · injection h with h; subst h; exact ofSch_ok Env.default_ok _ (by decide +kernel)
-    · split at h
-      · injection h with h; subst h; exact ofSch_ok Env.default_ok _ (by decide +kernel)
-      · cases h
+/-- the policy layer of the environment -/
+theorem envP_ok : EnvOK Irregular.envP := Env.with_ok Env.default_ok _ (Policy.codec_ok Env.default_ok)
+theorem envP_fine : ExtsFine Irregular.envP :=
+  Env.with_fine Env.default_fine _ (by rw [Policy.codec_minLen]; exact Nat.le_refl 1) (Policy.codec_guarded Env.default_fine)
 
-theorem env1_ok : EnvOK Irregular.env1 := Env.with_ok Env.default_ok _ resolutionPayload_ok
+theorem resolutionPayload_ok : CodecOK (Irregular.resolutionPayload Irregular.envP) := by
+  apply tagged_ok
+  exact tagsOK_cons (ofSch_ok envP_ok _ (wf_of_default envP_fine _ (by decide +kernel))) <|
+    tagsOK_cons (ofSch_ok envP_ok _ (wf_of_default envP_fine _ (by decide +kernel))) <|
+    tagsOK_cons (ofSch_ok envP_ok _ (wf_of_default envP_fine _ (by decide +kernel))) tagsOK_nil
+
+theorem env1_ok : EnvOK Irregular.env1 := Env.with_ok envP_ok _ resolutionPayload_ok
+theorem env1_fine : ExtsFine Irregular.env1 :=
+  Env.with_fine envP_fine _ (Nat.le_refl 1) (by
+    simp only [Irregular.resolutionPayload, Codec.tagged, tagGuarded, Codec.ofSch, Bool.and_true, Bool.and_eq_true]
+    exact ⟨guarded_of_default envP_fine _ (by decide +kernel), guarded_of_default envP_fine _ (by decide +kernel),
+      guarded_of_default envP_fine _ (by decide +kernel)⟩)
 
 theorem env2_ok : EnvOK Irregular.env2 :=
-  Env.with_ok env1_ok _ (ofSch_ok env1_ok _ (by decide +kernel))
+  Env.with_ok env1_ok _ (ofSch_ok env1_ok _ (wf_of_default env1_fine _ (by decide +kernel)))
+theorem env2_fine : ExtsFine Irregular.env2 :=
+  Env.with_fine env1_fine _
+    (by simp only [Codec.ofSch]
+        exact (minLen_pos_iff env1_fine _).mpr (by decide +kernel))
+    (by simp only [Codec.ofSch]; exact guarded_of_default env1_fine _ (by decide +kernel))
 
 /-- the v2 transaction layout in the code now: version, bit order, field names, emptiness
 tests and field schemas equal the committed specification; encoder and decoder agree -/
@@ -52,23 +62,42 @@ theorem tie_wire_Types_V2FileContractResolution :
   constructor <;> rfl
 
 theorem v2txn_fields_wf :
-    (v2TxnFieldsEnc.all fun t => t.2.2.2.wf Irregular.env2) = true := by decide +kernel
+    (v2TxnFieldsEnc.all fun t => t.2.2.2.wf Env.default && t.2.2.2.guarded Env.default) = true := by decide +kernel
 
 theorem v2txn_fields_ok : FieldsOK (Irregular.v2TxnBitFields Irregular.env2 v2TxnFieldsEnc) := by
   intro f hf
   simp only [Irregular.v2TxnBitFields, List.mem_map] at hf
   obtain ⟨t, ht, rfl⟩ := hf
-  exact ofSch_ok env2_ok _ (List.all_eq_true.mp v2txn_fields_wf t ht)
+  have h := List.all_eq_true.mp v2txn_fields_wf t ht
+  simp only [Bool.and_eq_true] at h
+  exact ofSch_ok env2_ok _ (wf_of_default env2_fine _ h.1)
+
+theorem fieldsGuarded_of_all {E : Env} (hE : ExtsFine E) (fs : List (Nat × String × ZeroKind × Sch))
+    (h : (fs.all fun t => t.2.2.2.guarded Env.default) = true) :
+    fieldsGuarded (Irregular.v2TxnBitFields E fs) = true := by
+  induction fs with
+  | nil => rfl
+  | cons t ts ih =>
+    simp only [List.all_cons, Bool.and_eq_true] at h
+    simp only [Irregular.v2TxnBitFields, List.map_cons, fieldsGuarded, Codec.ofSch, Bool.and_eq_true]
+    exact ⟨guarded_of_default hE _ h.1, ih h.2⟩
 
 theorem v2txn_ok : CodecOK (Irregular.v2TxnCodec Irregular.env2) :=
   bitmap_ok (by decide) (by decide) v2txn_fields_ok
 
-/-- **the driver's environment satisfies the leaf laws** -/
+/-- **the driver's environment satisfies the leaf laws** (policy, resolution, v2 transaction) -/
 theorem c11_env_ok : EnvOK Irregular.env := Env.with_ok env2_ok _ v2txn_ok
 
+theorem env_fine : ExtsFine Irregular.env :=
+  Env.with_fine env2_fine _ (by simp [Irregular.v2TxnCodec, Codec.bitmap])
+    (by simp only [Irregular.v2TxnCodec, Codec.bitmap]
+        exact fieldsGuarded_of_all env2_fine _ (by decide +kernel))
+
 /-- every generated schema is well-formed and guarded in the driver's environment too -/
-theorem tie_all_wf_guarded_env :
-    (allSchemas.all fun t => t.2.1.wf Irregular.env && t.2.1.guarded Irregular.env) = true := by decide +kernel
+theorem tie_all_wf_guarded_env (n : String) (e d : Sch) (h : (n, e, d) ∈ allSchemas) :
+    e.wf Irregular.env = true ∧ e.guarded Irregular.env = true := by
+  obtain ⟨_, h1, h2⟩ := tie_generic_applies n e d h
+  exact ⟨wf_of_default env_fine e h1, guarded_of_default env_fine e h2⟩
 
 /-- the schema of a resolution (an `ext` leaf resolved by the environment) -/
 def resolution : Sch := .ext "Types.V2FileContractResolution"
